@@ -12,3 +12,14 @@ def run(ctx):
     shared.macrostep_in_consumer(ctx, "R5")
     shared.snapshot_ancestor_closure(ctx, "R7")
     shared.dotted_id_tests(ctx, "R8")
+    # R9: start() enters the root
+    import ast
+    from sa.program import norm
+    from sa.util import self_calls_in
+    from .roles import VIEWS, roles
+    for v in VIEWS:
+        st = roles(ctx, v).start
+        calls = self_calls_in(st, "_enter_states")
+        ok = any(call.args and isinstance(call.args[0], ast.List) and any(norm(e) == "self.machine" for e in call.args[0].elts) for call in calls)
+        ctx.c.ob("R9", ok, st, "start-enters-root", "start() enters the machine root (the default descent activates the rest)" if ok else
+                 "start() does not enter [self.machine]: the root would not be part of the configuration", st.node)
